@@ -274,6 +274,25 @@ class C05(Oracle):
 
 
 # =============================================================================== C06
+def identity_pattern(v):
+    """Which reported settings are the same object: per character the first-seen ordinals of the objects
+    returned by ansi_settings_at (never raw id() values)."""
+    seen = []
+    out = []
+    for i in range(len(v.base_str)):
+        row = []
+        for x in v.ansi_settings_at(i):
+            for n, y in enumerate(seen):
+                if x is y:
+                    row.append(n)
+                    break
+            else:
+                seen.append(x)
+                row.append(len(seen) - 1)
+        out.append(tuple(row))
+    return out
+
+
 def change_point_positions(v):
     """Text indices before which the non-optimised rendering writes an SGR sequence: every change
     point of the value's table is visible this way (public API only).  'No change point at j'
@@ -676,6 +695,9 @@ class C16(Oracle):
         require(ro.cells == post.cells, 'fmatch.equals_explicit_loop', matches=[[m.start(), m.end()] for m in ms],
                 loop=ro.to_json(), method=post.to_json())
         require(ro.render == post.render, 'fmatch.equals_explicit_loop_render', want=ro.render, got=post.render)
+        # "the same state": also which characters are covered by one and the same setting object
+        require(identity_pattern(ref) == identity_pattern(ctx.result), 'fmatch.equals_explicit_loop_spans',
+                loop=identity_pattern(ref), method=identity_pattern(ctx.result), matches=[[m.start(), m.end()] for m in ms])
         inside = set()
         for m in ms:
             inside.update(range(m.start(), m.end()))
@@ -873,7 +895,7 @@ class C01(Oracle):
             if not display.evaluable(o):
                 w.count('skipped:display_not_evaluable')
                 continue
-            if len(o.text) > 64 or any(len(c) > 10 for c in o.cells):
+            if len(o.text) > 320 or any(len(c) > 10 for c in o.cells):
                 w.count('skipped:display_over_bounds')
                 continue
             display.check_value(v, o, 'display', self.variant, w.stats)
@@ -942,8 +964,16 @@ class C08(Oracle):
                     po = ctx.post_all[ctx.recv_slot]
                     require(to.text == po.text and to.cells == po.cells and to.render == po.render,
                             'inplace_equals_not_inplace', inplace=po.to_json(), not_inplace=to.to_json())
+                    require(identity_pattern(twin) == identity_pattern(recv), 'inplace_equals_not_inplace_spans',
+                            inplace=identity_pattern(recv), not_inplace=identity_pattern(twin), value=po.to_json())
             else:
                 require(ctx.result is not recv, 'not_inplace_returns_new', op=ctx.op)
+        if ops.result_shape(ctx.op) == 'values' and ctx.result is not None:
+            # results are not aliased: the pieces of one call are distinct objects
+            its = [x for x in ctx.result if isinstance(x, AnsiString)]
+            for i1 in range(len(its)):
+                for i2 in range(i1 + 1, len(its)):
+                    require(its[i1] is not its[i2], 'result_pieces_alias_each_other', op=ctx.op, pieces=[i1, i2])
         if ops.result_shape(ctx.op) in ('value', 'values') and recv is not None and not ctx.ip:
             items = [ctx.result] if ops.result_shape(ctx.op) == 'value' else list(ctx.result or [])
             for it in items:
@@ -1134,6 +1164,8 @@ class C13(Oracle):
             require(so.text == ao.text, 'twin.text', op=ctx.op, item=j, ansistring=so.text, ansistr=ao.text)
             require(so.cells == ao.cells, 'twin.settings', op=ctx.op, item=j, ansistring=so.to_json(), ansistr=ao.to_json())
             require(so.render == ao.render, 'twin.str', op=ctx.op, item=j, ansistring=so.render, ansistr=ao.render)
+            require(identity_pattern(sv) == identity_pattern(av), 'twin.spans', op=ctx.op, item=j,
+                    ansistring=identity_pattern(sv), ansistr=identity_pattern(av), value=so.to_json())
             for (o, rs, re_) in display.FLAG_COMBOS:
                 x = sv.to_str(optimize=o, reset_start=rs, reset_end=re_)
                 y = av.to_str(optimize=o, reset_start=rs, reset_end=re_)
